@@ -172,6 +172,13 @@ def main():
         hi = lo + n * stepv + rng.choice([0, 0, 250])
         lp = rng.choice([lo + rng.randrange(-2, n + 3) * stepv, lo + rng.randrange(0, n) * stepv + rng.choice([0, 250, 1]), lo, hi])
         add("betfair", "GBP", True, rng.choice(["BACK", "LAY"]), {"k": "L", "p": lp, "s": rng.choice([2000, 100, 2001]), "ld": ["LINE_RANGE", lo, hi, stepv]})
+    # line markets sharing unit / minimum / maximum but not the interval (half- vs whole-unit lines), validated by ONE control instance in
+    # both orders: every price of the finer ladder on each of them
+    for _ in range(30 if thorough else 8):
+        lo = rng.randrange(0, 40) * 1000; n = rng.randrange(2, 12); hi = lo + n * 1000
+        for stepv in rng.choice([[500, 1000, 500], [1000, 500, 1000]]):
+            for k in range(0, 2 * n + 1):
+                add("betfair", "GBP", True, rng.choice(["BACK", "LAY"]), {"k": "L", "p": lo + k * 500, "s": 2000, "ld": ["LINE_RANGE", lo, hi, stepv]})
     outs5 = run_impl_parallel("c17", [{"job": "validate", "cases": ch} for ch in chunked(vcases, 4000)])
     vres = [r for o in outs5 for r in o["out"]]
     def coq_case(c, r):
@@ -195,6 +202,40 @@ def main():
     bad5 = []
     for i, o in enumerate(coq_eval("c17val", HDR, chunks)):
         bad5 += [i * 1500 + k for k in parse_nlist(parse_evals(o)[0])]
+    # a live BetfairClient whose account details arrive after the first orders were validated
+    groups = []
+    for code in sorted(cur):
+        mb, mp, ml = (int(round(cur[code][k] * 1000)) for k in ("min_bet_size", "min_bet_payout", "min_bsp_liability"))
+        gb, gp, gl = (int(round(cur["GBP"][k] * 1000)) for k in ("min_bet_size", "min_bet_payout", "min_bsp_liability"))
+        def some(b, pay, l):
+            cs = []
+            for s_ in (b - 10, b, b + 10, 1000, 2000):
+                if s_ > 0:
+                    cs.append({"side": rng.choice(["BACK", "LAY"]), "t": {"k": "L", "p": 2000, "s": s_, "ld": ["CLASSIC"]}})
+            cs.append({"side": "BACK", "t": {"k": "L", "p": 100000, "s": max(10, pay // 100), "ld": ["CLASSIC"]}})     # under the minimum stake, payout reached
+            for l_ in (l - 10, l, l + 10, b, 10000):
+                if l_ > 0:
+                    cs.append({"side": "LAY", "t": {"k": "MOC", "l": l_}})
+                    cs.append({"side": "BACK", "t": {"k": "LOC", "l": l_, "p": 2000, "ld": ["CLASSIC"]}})
+            return cs
+        groups.append({"cur": code, "pre": some(gb, gp, gl) + some(mb, mp, ml), "post": some(mb, mp, ml) + some(gb, gp, gl)})
+    bo = run_impl_parallel("c17", [{"job": "validate_bf", "groups": ch} for ch in chunked(groups, 8)])
+    bres = [r for o in bo for r in o["out"]]
+    brows = []
+    for g, r in zip(groups, bres):
+        for c, ok in zip(g["pre"], r["pre"]):
+            brows.append((dict(c, x="betfair", cur="GBP", minval=True), ok, g["cur"], "before"))
+        for c, ok in zip(g["post"], r["post"]):
+            brows.append((dict(c, x="betfair", cur=g["cur"], minval=True), ok, g["cur"], "after"))
+    bbad = []
+    for i, o in enumerate(coq_eval("c17bf", HDR, ["Definition cases := %s.\nEval vm_compute in bad_idx validate_ok cases.\n" % cl(coq_case(c, r) for c, r, _, _ in ch)
+                                                  for ch in chunked(brows, 1500)])):
+        bbad += [i * 1500 + k for k in parse_nlist(parse_evals(o)[0])]
+    ck.family("validation_account_details_arrive_late", len(brows), len(brows), bbad, bbad, dist={"currencies": len(groups)})
+    for i in bbad[:3]:
+        c, ok, code, when = brows[i]
+        ck.fail("C17-validate", "BetfairClient(%s), order validated %s the account details arrived: %s although the %s minimums say otherwise" % (
+            code, when, "accepted" if ok else "refused", "GBP fall-back" if when == "before" else code), {"call": "OrderValidation._validate on a real BetfairClient", "currency": code, "phase": when, "order": c, "accepted": ok})
     nacc = sum(vres)
     ck.family("order_validation", len(vcases), len({json.dumps(c, sort_keys=True) for c in vcases}), bad5, bad5,
               dist={"accepted": nacc, "refused": len(vres) - nacc, "currencies": len(cur)},
